@@ -3,7 +3,7 @@
    the code as steps). What no model shows: the Go memory model, sync internals, go-git's thread safety. *)
 From Coq Require Import List Arith Bool.
 Import ListNotations.
-From GB Require Import Conc CacheConc.
+From GB Require Import Conc CacheConc CacheExcerpt.
 
 (* For every schedule of any number of threads running any cache calls on the repaired cache, from any good
    state: every acknowledged operation occurs exactly once in the final stored history of its bug *)
@@ -41,6 +41,24 @@ Theorem C18_initial_state_good n m progs : Good (init_cold n m, map thread_of pr
 Proof. exact (init_good n m progs). Qed.
 Print Assumptions C18_initial_state_good.
 
+(* "the cache agrees with a rebuild", the excerpts (what Query, ResolveExcerpt and the bug lists show): for every
+   schedule of any programs on a cache that was just opened, in every state that is reached and for every bug,
+   the excerpt is the one of the entity the cache hands out (staged operations included), or some thread still has
+   to run the entityUpdated of its change, or a call about that bug failed inside entityUpdated / add *)
+Theorem C18_excerpts_fresh n m progs sched b : let c := run true sched (init_cold n m, map thread_of progs) in
+  excerpt (fst c) b = truth_s (fst c) b \/
+  exists t th, nth_error (snd c) t = Some th /\ (owes (insts (fst c)) th b \/ failed th b).
+Proof. exact (excerpts_fresh n m progs sched b). Qed.
+Print Assumptions C18_excerpts_fresh.
+
+(* ... once the threads are done: a stale excerpt belongs to a bug about which a call returned 'entity missing from
+   cache' (class 2: the entity was evicted under the caller) or add refused it (class 4); K_C18.C18_allowed *)
+Theorem C18_excerpts_fresh_when_done n m progs sched b : let c := run true sched (init_cold n m, map thread_of progs) in
+  (forall th, In th (snd c) -> code th = []) ->
+  excerpt (fst c) b = truth_s (fst c) b \/ exists th, In th (snd c) /\ failed th b.
+Proof. exact (excerpts_fresh_when_done n m progs sched b). Qed.
+Print Assumptions C18_excerpts_fresh_when_done.
+
 (* Deadlock freedom, general form: threads that take reader/writer locks in strictly increasing rank (hence never
    re-enter one) and finish holding none can always make progress, for any number of threads *)
 Theorem C18_deadlock_free (ts : list rthread) :
@@ -68,6 +86,20 @@ Theorem C18_reentrant_rlock_refuted : exists sched,
   stuckb (rrun sched [mkrt [] sk_query_nil_pinned; mkrt [] (sk_notify 0)]) = true.
 Proof. exact reentrant_rlock_stuck. Qed.
 Print Assumptions C18_reentrant_rlock_refuted.
+
+(* a full-text Query that resolves its hits through ResolveExcerpt (read lock taken again while held): same deadlock *)
+Theorem C18_search_resolving_hits_refuted : exists sched,
+  stuckb (rrun sched [mkrt [] sk_query_search_resolving; mkrt [] (sk_append 0)]) = true.
+Proof. exact search_resolving_stuck. Qed.
+Print Assumptions C18_search_resolving_hits_refuted.
+
+(* an entityUpdated that computes the excerpt before it takes the write lock: two edits of one bug, everybody done,
+   nobody failed, and the excerpt of the bug is not the one of its entity *)
+Theorem C18_excerpts_fresh_refuted_split_notify : exists sched,
+  let c := run true sched (init_cold 1 1000, [thread_of_code (code_edit_split 1); thread_of_code (code_edit_split 1)]) in
+  quietb c && staleb (fst c) 1 = true.
+Proof. exact split_notify_stale. Qed.
+Print Assumptions C18_excerpts_fresh_refuted_split_notify.
 
 (* by design: the lock of an evicted instance is never released; the holder of such a handle waits for ever *)
 Theorem C18_evicted_handle_refuted : exists sched,
